@@ -18,7 +18,7 @@ func keep(c drv.Cfg) drv.Cfg { c.Keep = true; return c }
 type initState struct {
 	name  string
 	init  []string
-	next  int64   // NextOffset of the state
+	next  int64    // NextOffset of the state
 	calls []string // the calls that are meaningful in it
 }
 
